@@ -246,6 +246,9 @@ func (c *EvalCtx) findPkg(alias string) *types.Package {
 
 func (c *EvalCtx) ident(name string) Value {
 	if v, ok := c.bind[name]; ok {
+		if va, isAddr := v.(varAddr); isAddr {
+			return c.e.loadPtr(c.st, va.P)
+		}
 		return v
 	}
 	if !c.noVars {
